@@ -135,13 +135,23 @@ def run(chk, fb, tier):
     # the record write uses the joined row
     chk.ob(rb, "record-content", bool(joins), where=where(o[0]), detail="the record is the join of the row's fields")
     # C20.c options
+    lets = {y["pat"].get("lid"): hirq.strip(y["init"]) for y in hirq.walk(body) if y.get("k") == "let" and y.get("init") and y["pat"].get("k") == "bind"}
+
+    def from_getter(n, getter, depth=0):
+        """n mentions a call of the option getter, directly or through immutable local bindings."""
+        for y in hirq.walk(n):
+            if y.get("k") == "mcall" and (y.get("def") or "").endswith(getter):
+                return True
+            if y.get("k") == "path" and y.get("lid") in lets and depth < 4 and from_getter(lets[y["lid"]], getter, depth + 1):
+                return True
+        return False
+
     ifs = [x for x in hirq.walk(i[3]) if x.get("k") == "if"]
     trim_if = wrap_if = None
     for x in ifs:
-        cs = hirq.called_defs(x["cond"])
-        if any(c.endswith("get_do_trim") for c in cs):
+        if trim_if is None and from_getter(x["cond"], "get_do_trim"):
             trim_if = x
-        if any(c.endswith("get_wrap_with_char") for c in cs):
+        if wrap_if is None and from_getter(x["cond"], "get_wrap_with_char"):
             wrap_if = x
     ok = trim_if is not None and any(c == "core::str::<impl str>::trim" or c.endswith("str>::trim") for c in hirq.called_defs(trim_if["then"]))
     chk.ob(rc, "trim-guarded", ok, where=where(trim_if) if trim_if else where(i[0]), detail="trim option guards a call to str::trim (both sides): %s; callees %s" % (ok, [c.split("::")[-1] for c in hirq.called_defs(trim_if["then"])] if trim_if else []))
@@ -157,14 +167,7 @@ def run(chk, fb, tier):
                     lits = [v for k, v in pieces if k == "lit"]
                     if len(args) == 3 and not lits:
                         a0, a1, a2 = (hirq.strip(a) for a in args)
-                        lets = {y["pat"].get("lid"): hirq.strip(y["init"]) for y in hirq.walk(body) if y.get("k") == "let" and y.get("init") and y["pat"].get("k") == "bind"}
-
-                        def is_wrap(a, depth=0):
-                            if a.get("k") == "mcall" and a.get("def", "").endswith("get_wrap_with_char"):
-                                return True
-                            if a.get("k") == "path" and a.get("lid") in lets and depth < 3:
-                                return is_wrap(lets[a["lid"]], depth + 1)
-                            return False
+                        is_wrap = lambda a: from_getter(a, "get_wrap_with_char")
                         wrap_ok = is_wrap(a0) and is_wrap(a2) and not is_wrap(a1)
     chk.ob(rc, "wrap-both-sides", wrap_ok, where=where(wrap_if) if wrap_if else where(i[0]), detail="wrapped value is <wrap><value><wrap>: %s" % wrap_ok)
     cond_ok = False
@@ -184,9 +187,13 @@ def run(chk, fb, tier):
         for c in hirq.calls(wrap_if["then"]):
             if c.get("k") == "mcall" and c.get("name") in ("replace", "replacen") and len(c.get("args", [])) >= 2:
                 a0 = hirq.strip(c["args"][0])
-                from_wrap = lambda n: any(y.get("k") == "mcall" and y.get("def", "").endswith("get_wrap_with_char") for y in hirq.walk(n))
-                twice = any(y.get("k") == "mcall" and y.get("name") == "repeat" and hirq.lit_value(y["args"][0]) == 2 for y in hirq.walk(c["args"][1])) or sum(
-                    1 for y in hirq.walk(c["args"][1]) if y.get("k") == "mcall" and y.get("def", "").endswith("get_wrap_with_char")
+                from_wrap = lambda n: from_getter(n, "get_wrap_with_char")
+                a1 = c["args"][1]
+                a1s = hirq.strip(a1)
+                if a1s.get("k") == "path" and a1s.get("lid") in lets:
+                    a1 = lets[a1s["lid"]]
+                twice = any(y.get("k") == "mcall" and y.get("name") == "repeat" and hirq.lit_value(y["args"][0]) == 2 for y in hirq.walk(a1)) or sum(
+                    1 for y in hirq.walk(a1) if (y.get("k") == "mcall" and y.get("def", "").endswith("get_wrap_with_char")) or (y.get("k") == "path" and y.get("lid") in lets and from_wrap(lets[y["lid"]]))
                 ) >= 2
                 if from_wrap(a0) and from_wrap(c["args"][1]) and twice:
                     doubled = True
@@ -207,15 +214,18 @@ def run(chk, fb, tier):
         for lits, arm in rows:
             statics = [x.get("def") for x in hirq.walk(arm["body"]) if x.get("k") == "path" and x.get("def", "").startswith("encoding_rs::")]
             if lits is None:
-                fallback = [c for c in hirq.called_defs(arm["body"])]
+                fallback = statics
             else:
                 for l in lits:
                     table[l.split("::")[-1]] = statics
     for v in variants:
         want = ENC.ENCODING_RS_STATIC.get(v)
         if want is None:
-            ok = v not in table and fallback is not None and any(c.endswith("into_bytes") for c in fallback)
-            chk.ob(re_, "encoding(%s)" % v, ok, where=fb.loc(d), detail="UTF-8: identity encoding through the fallback arm: %s" % ok)
+            # UTF-8 is the identity: it is not mapped to an encoding_rs static, the fallback arm names none, and the
+            # text's own bytes are what is written on that path (String::into_bytes / as_bytes somewhere in the function)
+            ident = any(c.endswith(("String::into_bytes", "str>::as_bytes", "String::as_bytes")) for c in hirq.called_defs(body))
+            ok = v not in table and fallback is not None and not fallback and ident
+            chk.ob(re_, "encoding(%s)" % v, ok, where=fb.loc(d), detail="UTF-8: no encoding_rs static selected (fallback arm: %s), the string's own bytes are written: %s" % (fallback, ident))
         else:
             got = table.get(v)
             ok = got == ["encoding_rs::" + want]
